@@ -143,23 +143,23 @@ func (p *spPeer) Id() string               { return p.id }
 func (p *spPeer) Context() context.Context { return p.ctx }
 
 type spHarness struct {
-	r         *core.Run
-	s         *core.Sched
-	pool      streampool.StreamPool
-	streams   []*spStream
-	offers    int
-	delivered map[int]int
-	teardown  bool
-	openN     int
-	maxQueue  int
-	tags      []string
-	peers     []string
-	removed   map[uint32]bool
+	r             *core.Run
+	s             *core.Sched
+	pool          streampool.StreamPool
+	streams       []*spStream
+	offers        int
+	delivered     map[int]int
+	teardown      bool
+	openN         int
+	maxQueue      int
+	tags          []string
+	peers         []string
+	removed       map[uint32]bool
 	defaultQueues bool
 }
 
-func (h *spHarness) Init(a *app.App) error { return nil }
-func (h *spHarness) Name() string          { return "sim.streamhandler" }
+func (h *spHarness) Init(a *app.App) error        { return nil }
+func (h *spHarness) Name() string                 { return "sim.streamhandler" }
 func (h *spHarness) NewReadMessage() drpc.Message { return &spMsg{h: h} }
 
 func (h *spHarness) newStream(peerId string) *spStream {
@@ -223,7 +223,9 @@ func (h *spHarness) HandleMessage(ctx context.Context, peerId string, msg drpc.M
 }
 
 func (h *spHarness) state() streampool.VerifPoolState {
-	return h.pool.(interface{ VerifState() streampool.VerifPoolState }).VerifState()
+	return h.pool.(interface {
+		VerifState() streampool.VerifPoolState
+	}).VerifState()
 }
 
 // invariants on the pool's bookkeeping, evaluated at quiescence after every grant.
